@@ -156,11 +156,11 @@ for _K in (2, 3, 4, 5):
     PART_SPECS["RK%d" % _K] = (RandomKaryPartition, _K)
 PART_NAMES = list(PART_SPECS)
 # larger arities: used by the partition-only workloads of C02/C03 (the properties quantify over all K >= 2)
-for _K in (6, 7, 8, 10, 16):
+for _K in (6, 7, 8, 10, 16, 32, 64):
     PART_SPECS["K%d" % _K] = (KaryPartition, _K)
     PART_SPECS["RK%d" % _K] = (RandomKaryPartition, _K)
 PART_NAMES_WIDE = list(PART_SPECS)
-EQUAL_SIZE = {"Bin", "DimBin", "K2", "K3", "K4", "K5", "K6", "K7", "K8", "K10", "K16"}
+EQUAL_SIZE = {"Bin", "DimBin", "K2", "K3", "K4", "K5", "K6", "K7", "K8", "K10", "K16", "K32", "K64"}
 MIDPOINT_PARTS = ["Bin", "DimBin", "K2", "K4"]  # the pulled centre lies on a face between children
 BINARY_PARTS = ["Bin", "RBin", "K2", "RK2"]
 RNG_FREE_1D = ["Bin", "DimBin", "K2", "K3", "K4", "K5"]  # no random numbers consumed when d == 1
@@ -332,6 +332,10 @@ USER_DELTAS = {
     "inv": lambda h: 1.0 / (h + 1.0),
     "const": lambda h: 0.5,
     "pow09": lambda h: 3.0 * 0.9 ** h,
+    # legal but not monotone in the depth (nothing in the API requires a decreasing delta)
+    "stair": lambda h: 0.5 ** (h // 2) * (1.2 if h % 2 else 1.0),
+    "wave": lambda h: 1.0 + 0.5 * math.sin(1.7 * h),
+    "rise": lambda h: min(2.0, 0.1 * (h + 1)),
 }
 
 
